@@ -608,9 +608,13 @@ func runC05(args []string) int {
 						maxT = 6
 					}
 				}
-				if !o.Thorough() && maxNodes > 60 {
+				if maxNodes > 60 {
 					// expensive enumeration (many free hint wires): a spread of the tuples goes to Coq, the Go search covered all
-					if lim := 6000 / maxNodes; lim < maxT {
+					lim := 6000 / maxNodes
+					if o.Thorough() {
+						lim = 40000 / maxNodes
+					}
+					if lim < maxT {
 						maxT = lim
 					}
 					if maxT < 6 {
